@@ -109,6 +109,26 @@ func TestVerifReplay(t *testing.T) {
 			t.Logf("REPLAY-CONFIRMED a reachable peer at or beyond the depth disconnects: depth stays %d, a node with the same connected set has depth %d (depth not recomputed)", depth, want); return
 		}
 	}
+	// fixed scenario: admission.  Three full bins, the storage radius lowered below the depth of the
+	// connected set; an unprotected inbound full node for a full bin at or beyond the (capped)
+	// depth must be refused, and Pick and Connected must agree
+	{
+		old := *kademlia.OverSaturationPeers
+		*kademlia.OverSaturationPeers = 4
+		base, kad, ab, _, signer := newTestKademlia(t, nil, nil, kademlia.Options{ReachabilityFunc: func(_ boson.Address) bool { return false }})
+		for bin := 0; bin < 3; bin++ {
+			for j := 0; j < 4; j++ { connectOne(t, signer, kad, ab, test.RandomAddressAt(base, bin), nil) }
+		}
+		kad.SetRadius(1)
+		newcomer := test.RandomAddressAt(base, 1)
+		picked := kad.Pick(p2p.Peer{Address: newcomer, Mode: full})
+		err := kad.Connected(context.Background(), p2p.Peer{Address: newcomer, Mode: full}, false)
+		n := len(verifConnected(kad))
+		*kademlia.OverSaturationPeers = old
+		if !picked && (err == nil || n != 12) {
+			t.Logf("REPLAY-CONFIRMED bin 1 holds 4 of at most 4 peers and Pick refuses the newcomer, yet Connected admits it (error %v, %d peers connected instead of 12): an unprotected inbound full node entered an oversaturated bin", err, n); return
+		}
+	}
 	t.Logf("not reproduced")
 }
 '''
